@@ -407,11 +407,15 @@ where
         loop {
             if let Some(ref s) = self.shutdown {
                 if s.try_recv().is_ok() {
+                    #[cfg(humphrey_verif)]
+                    crate::verif::app_event(crate::verif::AppEvent::ShutdownSeen);
                     break;
                 }
             }
 
             let keys: Vec<SocketAddr> = self.streams.keys().copied().collect();
+            #[cfg(humphrey_verif)]
+            crate::verif::app_event(crate::verif::AppEvent::IterStart(keys.clone()));
 
             // Calculate whether a ping should be sent this iteration.
             let will_ping = self
@@ -427,6 +431,8 @@ where
                     will_ping
                 })
                 .unwrap_or(false);
+            #[cfg(humphrey_verif)]
+            crate::verif::app_event(crate::verif::AppEvent::WillPing(will_ping));
 
             // Check for messages and status on each stream.
             for addr in keys {
@@ -435,6 +441,14 @@ where
 
                     match stream.inner.recv_nonblocking() {
                         Restion::Ok(message) => {
+                            #[cfg(humphrey_verif)]
+                            crate::verif::app_event(crate::verif::AppEvent::Recv(
+                                addr,
+                                crate::verif::RecvSummary::Message(
+                                    message.is_text(),
+                                    message.bytes().to_vec(),
+                                ),
+                            ));
                             if let Some(handler) = &message_handler {
                                 let async_stream = AsyncStream::new(
                                     addr,
@@ -445,12 +459,23 @@ where
                                 let cloned_state = self.state.clone();
                                 let cloned_handler = handler.clone();
 
+                                #[cfg(humphrey_verif)]
+                                crate::verif::app_event(crate::verif::AppEvent::DispatchMessage(
+                                    addr,
+                                    message.is_text(),
+                                    message.bytes().to_vec(),
+                                ));
                                 self.thread_pool.execute(move || {
                                     (cloned_handler)(async_stream, message, cloned_state)
                                 });
                             }
                         }
                         Restion::Err(_) => {
+                            #[cfg(humphrey_verif)]
+                            crate::verif::app_event(crate::verif::AppEvent::Recv(
+                                addr,
+                                crate::verif::RecvSummary::Err(stream.inner.closed),
+                            ));
                             if let Some(handler) = &disconnect_handler {
                                 let async_stream = AsyncStream::disconnected(
                                     addr,
@@ -461,13 +486,26 @@ where
                                 let cloned_state = self.state.clone();
                                 let cloned_handler = handler.clone();
 
+                                #[cfg(humphrey_verif)]
+                                crate::verif::app_event(crate::verif::AppEvent::DispatchDisconnect(addr));
                                 self.thread_pool
                                     .execute(move || (cloned_handler)(async_stream, cloned_state));
                             }
 
+                            #[cfg(humphrey_verif)]
+                            crate::verif::app_event(crate::verif::AppEvent::Removed(addr));
                             self.streams.remove(&addr);
                             break 'inner;
                         }
+                        #[cfg(humphrey_verif)]
+                        Restion::None
+                            if {
+                                crate::verif::app_event(crate::verif::AppEvent::Recv(
+                                    addr,
+                                    crate::verif::RecvSummary::None,
+                                ));
+                                false
+                            } => {}
                         Restion::None => break 'inner,
                     }
                 }
@@ -476,6 +514,8 @@ where
                     // If the stream has timed out without sending a close frame, process it as a disconnection.
                     if let Some(ping) = &self.heartbeat {
                         if stream.inner.last_pong.elapsed() >= ping.timeout {
+                            #[cfg(humphrey_verif)]
+                            crate::verif::app_event(crate::verif::AppEvent::TimedOut(addr));
                             if let Some(handler) = &disconnect_handler {
                                 let async_stream = AsyncStream::disconnected(
                                     addr,
@@ -486,10 +526,14 @@ where
                                 let cloned_state = self.state.clone();
                                 let cloned_handler = handler.clone();
 
+                                #[cfg(humphrey_verif)]
+                                crate::verif::app_event(crate::verif::AppEvent::DispatchDisconnect(addr));
                                 self.thread_pool
                                     .execute(move || (cloned_handler)(async_stream, cloned_state));
                             }
 
+                            #[cfg(humphrey_verif)]
+                            crate::verif::app_event(crate::verif::AppEvent::Removed(addr));
                             self.streams.remove(&addr);
                             continue;
                         }
@@ -497,6 +541,8 @@ where
 
                     // If a ping is due, send one.
                     if will_ping {
+                        #[cfg(humphrey_verif)]
+                        crate::verif::app_event(crate::verif::AppEvent::Ping(addr));
                         stream.inner.ping().ok();
                     }
                 }
@@ -516,11 +562,18 @@ where
                     let cloned_state = self.state.clone();
                     let cloned_handler = handler.clone();
 
+                    #[cfg(humphrey_verif)]
+                    crate::verif::app_event(crate::verif::AppEvent::DispatchConnect(addr));
                     self.thread_pool.execute(move || {
                         (cloned_handler)(async_stream, cloned_state);
                     });
                 }
 
+                #[cfg(humphrey_verif)]
+                crate::verif::app_event(crate::verif::AppEvent::Admitted(
+                    addr,
+                    self.streams.contains_key(&addr),
+                ));
                 self.streams.insert(
                     addr,
                     StatefulWebsocketStream {
@@ -533,12 +586,25 @@ where
             for message in self.outgoing_messages.try_iter() {
                 match message {
                     OutgoingMessage::Message(addr, message) => {
+                        #[cfg(humphrey_verif)]
+                        crate::verif::app_event(crate::verif::AppEvent::OutUnicast(
+                            addr,
+                            self.streams.contains_key(&addr),
+                            message.is_text(),
+                            message.bytes().to_vec(),
+                        ));
                         if let Some(stream) = self.streams.get_mut(&addr) {
                             // Ignore errors with sending for now, and deal with them in the next iteration.
                             stream.inner.send(message).ok();
                         }
                     }
                     OutgoingMessage::Broadcast(message) => {
+                        #[cfg(humphrey_verif)]
+                        crate::verif::app_event(crate::verif::AppEvent::OutBroadcast(
+                            self.streams.keys().copied().collect(),
+                            message.is_text(),
+                            message.bytes().to_vec(),
+                        ));
                         let frame = message.to_frame();
                         for stream in self.streams.values_mut() {
                             // Ignore errors with sending for now, and deal with them in the next iteration.
@@ -552,6 +618,8 @@ where
                 sleep(interval);
             }
         }
+        #[cfg(humphrey_verif)]
+        crate::verif::app_event(crate::verif::AppEvent::LoopExit);
         self.thread_pool.stop();
     }
 
